@@ -12,7 +12,7 @@ NOTE = ("Trusted: Lean 4.33 kernel + axioms propext/Classical.choice/Quot.sound 
 
 CHECKS = {
     "C17": dict(
-        text="The option tables of Lithium's two argparse parsers are REGENERATED from the live parser objects on every run (lean/Generated/CmdlineTable.lean). Theorems: C17_generated_wf (decide: every generated table has a single REMAINDER positional — changing nargs breaks this obligation), C17_tail_isolation (for EVERY table of that shape, every sequence of option blocks before the first non-option token and EVERY tail: the namespace and any error are independent of the tail and the tail is handed over verbatim), C17_name_is_positional, C17_early_never_ambiguous, C17_testcase_choice, C17_import_order, C17_syspath; recorded findings as theorems: C17_early_swallow_counterexample, C17_tail_ambiguous_counterexample. The argparse port is tied to CPython's argparse + process_args by differential execution on argv = pre x name x tail (attached, two-token, abbreviated, clustered, invalid options; hostile tails); resolution order and sys.path on real directories.",
+        text="The option tables of Lithium's two argparse parsers are REGENERATED from the live parser objects on every run (lean/Generated/CmdlineTable.lean). Theorems: C17_generated_wf (decide: every generated table has a single REMAINDER positional — changing nargs breaks this obligation), C17_tail_isolation (for EVERY table of that shape, every sequence of option blocks before the first non-option token and EVERY tail: the namespace and any error are independent of the tail and the tail is handed over verbatim), C17_name_is_positional, C17_early_never_ambiguous, C17_syspath_script (after fix 48933b6: if the imported test script prepends P and appends Q to sys.path, what is left is P ++ before ++ Q — Lithium's temporary entry is gone wherever the script put its own), C17_testcase_choice, C17_import_order, C17_syspath; recorded findings as theorems: C17_early_swallow_counterexample, C17_tail_ambiguous_counterexample. The argparse port is tied to CPython's argparse + process_args by differential execution on argv = pre x name x tail (attached, two-token, abbreviated, clustered, invalid options; hostile tails); resolution order and sys.path on real directories.",
         note=NOTE + "The port of argparse 3.12 is a model of a library validated only by the correspondence; the import system is modelled abstractly. Three recorded findings (early-parser swallow, ambiguous prefix in the tail, importable stem).",
         technique="table regeneration from live parsers + Lean 4 proof (locality of option blocks, induction over blocks) + differential execution of process_args",
         ref="§4 C17"),
@@ -22,7 +22,7 @@ CHECKS = {
         technique="Lean 4 proof (refinement of the splitter state machines to a reference segmentation: simulation of the scanner by a greedy labelled pass, rewind lemma, offset-preserving gap merge; shape and in-tag invariants for attributes) + exhaustive short-string correspondence + independent reference tokenizer",
         ref="§4 C16"),
     "C05": dict(
-        text="Theorems C05_load_frame (for every splitter without header/footer: before = lines through the DDBEGIN line, after = lines from the DDEND line), C05_char_byte (char mode moves the last region byte, unchanged, in front of the suffix), C05_content_frame, C05_frame_minimize and C05_frame_pairs (every proposal and the final best of minimize / minimize-around / minimize-balanced keep before and after, for every test, clock and option setting; the pair strategies through the generic closed-predicate invariant of the pass loop), C05_frame_move (minimize-balanced WITH the experimental move, modelled in PairsMove.lean: removals and both kinds of moves keep before and after). Tied to the code by loaders + all 7 strategies (+move) x 5 splitters on marker files with every terminator style; the monitor compares prefix/suffix (and the byte before DDEND in char mode) of every file presented to the test.",
+        text="Theorems C05_load_frame (for every splitter without header/footer: before = lines through the DDBEGIN line, after = lines from the DDEND line), C05_char_byte (char mode moves the last region byte, unchanged, in front of the suffix), C05_content_frame, C05_frame_minimize and C05_frame_pairs (every proposal and the final best of minimize / minimize-around / minimize-balanced keep before and after, for every test, clock and option setting; the pair strategies through the generic closed-predicate invariant of the pass loop), C05_frame_move (minimize-balanced WITH the experimental move, modelled in PairsMove.lean: removals and both kinds of moves keep before and after), C05_frame_collapse_cond (minimize-collapse-brace keeps before and after in every proposal and in the final file IF the re-load of the collapsed text finds the same boundaries again; deletions never touch them — the recorded finding collapse-reload-boundary is an input on which the symbol loader does not, model counterexample C05_collapse_reload_counterexample). Tied to the code by loaders + all 7 strategies (+move) x 5 splitters on marker files with every terminator style; the monitor compares prefix/suffix (and the byte before DDEND in char mode) of every file presented to the test.",
         note=NOTE + "Brace collapsing (re-load of the collapsed text) and the two rewriting strategies: monitored on the real code, not proved.",
         technique="Lean 4 proof (load spec + frame invariant through the strategy loops) + differential execution on marker files",
         ref="§4 C05"),
